@@ -40,15 +40,26 @@ def spell(name, kind, off):
     return '%s[%d]' % (base, off)
 
 
-SPELLINGS = [None, 'space-before-bracket', 'comment-with-terms', 'comment-lines']
+SPELLINGS = [None, 'space-before-bracket', 'comment-with-terms', 'comment-lines', 'blank-inside-brackets', 'function-calls']
+FUNCTION_NAMES = ['f', 'g1', 'F', 'fn', 'np.f', 'h_', 'np.sub.f2', 'exp', 'Log']  # names of functions are never variables, however short
 
 
 def script_of(prog, spelling=None):
     """The same program in another spelling: a blank before a right-hand-side index bracket; trailing comments / comment
     lines that contain terms, brackets, quotes and further hashes (none of which is part of the script)."""
+    counter = [0]
+
     def rhs_spell(m):
         t = spell(*m)
-        return t.replace('[', ' [', 1) if spelling == 'space-before-bracket' else t
+        if spelling == 'space-before-bracket':
+            return t.replace('[', ' [', 1)
+        if spelling == 'blank-inside-brackets':
+            # a blank on one side only, inside braces / angle brackets / the index bracket
+            return t.replace('}', ' }').replace('<', '< ').replace(']', ' ]')
+        if spelling == 'function-calls':
+            counter[0] += 1
+            return '%s(%s)' % (FUNCTION_NAMES[counter[0] % len(FUNCTION_NAMES)], t)
+        return t
     lines = ['%s = %s' % (spell(l[0], 'v', l[1]), ' + '.join(rhs_spell(m) for m in rhs)) for l, rhs in prog]
     if spelling == 'comment-with-terms':
         lines = [ln + "  # was W9[-7] + <zz9> + {qq9}[+7], see ticket #7 - last year's" for ln in lines]
@@ -124,9 +135,11 @@ def run_case(case):
         out.append(('spurious-rejection:%s' % got, 'accepted', got, 'a consistent script was rejected: %s' % script))
         return out, 'spurious'
     (endo, exo, par, err), lags, leads = ref[1], ref[2], ref[3]
-    has_label = any(isinstance(m[2], str) for _, rhs in prog for m in rhs)
+    has_label = any(isinstance(m[2], str) for _, rhs in prog for m in rhs) or case.get('spelling') == 'function-calls'  # (undefined helper functions: the model is classified, not solved)
     solved_for = set()
-    for opt in (OPTION_LATTICE if case.get('full_options') else OPTION_SMALL):
+    options = list(OPTION_LATTICE if case.get('full_options') else OPTION_SMALL)
+    options += [dict(o, with_type_hints=False) for o in OPTION_SMALL]   # the same, from the template without type hints
+    for opt in options:
         Model = fsic.build_model(symbols, **opt)
         obs = (list(Model.ENDOGENOUS), list(Model.EXOGENOUS), list(Model.PARAMETERS), list(Model.ERRORS))
         if obs != (endo, exo, par, err):
@@ -239,7 +252,7 @@ def run_block(block, tier, seed):
     for i, (prog, full) in enumerate(program_space(tier)):
         if i % block['nb'] != block['b']:
             continue
-        for spelling in (SPELLINGS if (len(prog) == 1 and len(prog[0][1]) <= 2) else SPELLINGS[:1]):
+        for spelling in (SPELLINGS if (len(prog) == 1 and len(prog[0][1]) <= 2 and prog[0][0][1] is None) else SPELLINGS[:1]):
             case = {'prog': [[list(l), [list(m) for m in rhs]] for l, rhs in prog], 'full_options': full and spelling is None, 'script': script_of(prog, spelling)}
             if spelling:
                 case['spelling'] = spelling
